@@ -432,7 +432,8 @@ def main():
     finally:
         ev['wall_s'] = round(time.time() - t0, 2)
         # self-test runs against a scratch copy of the sources (VERIF_REPO_SRC) must not overwrite the evidence
-        evdir = os.path.join(VERIF, 'evidence') if 'VERIF_REPO_SRC' not in os.environ else os.path.join(work, 'evidence')
+        keep_ev = 'VERIF_REPO_SRC' in os.environ or 'VERIF_NO_EVIDENCE' in os.environ
+        evdir = os.path.join(VERIF, 'evidence') if not keep_ev else os.path.join(work, 'evidence')
         os.makedirs(evdir, exist_ok=True)
         json.dump(ev, open(os.path.join(evdir, pid + '.json'), 'w'), indent=1)
         if not a.keep:
@@ -578,9 +579,10 @@ def decide(pid, cfg, tier, seed, units, work, ev):
                 unknown.append(f)
         if unknown:
             ev['violations'] = len(unknown)
-            os.makedirs(os.path.join(VERIF, 'replays'), exist_ok=True)
+            rdir = os.path.join(VERIF, 'replays') if 'VERIF_NO_EVIDENCE' not in os.environ else os.path.join(work, 'replays')
+            os.makedirs(rdir, exist_ok=True)
             h = hashlib.sha256(json.dumps([(f['function'], f['clause'], f['message']) for f in unknown]).encode()).hexdigest()[:10]
-            rpath = os.path.join(VERIF, 'replays', '%s-%s.json' % (pid, h))
+            rpath = os.path.join(rdir, '%s-%s.json' % (pid, h))
             rep = {'property': pid, 'failed_obligations': [
                 {'obligation': '%s / %s' % (f['function'], f['message']), 'clause': f['clause'], 'tags': f['tags'],
                  'origin': f['origin'], 'features': f['features'], 'verifier_output': f['rendered']} for f in unknown],
